@@ -121,7 +121,7 @@ fn check_value(b: &Bitstr, m: &[u8]) -> Option<String> {
     None
 }
 
-fn fresh_from_model(m: &[u8], rng: &mut Rng) -> Bitstr {
+pub fn fresh_from_model(m: &[u8], rng: &mut Rng) -> Bitstr {
     // independently built equal value at a random alignment: pad with random bits, then slice
     let lead = rng.below(12);
     let trail = rng.below(12);
